@@ -65,6 +65,8 @@ class C10(FmtCheck):
         q = tier == "quick"
         J = sharded("c10-tokens", e, ["--gen", "tokens", "--tokens", TOKENS, "--maxlen", "4" if q else "5"] + ([] if q else ["--heavy"]), 12 if q else 64)
         J += sharded("c10-numfields", e, ["--gen", "numfields"], 2)
+        J += sharded("c10-layouts", e, ["--gen", "layouts", "--nosinks"], 4)          # every width x radix x flag x padding: no crash, no overrun
+        J += sharded("c10-floats", e, ["--gen", "floats", "--count", "2000" if q else "100000", "--seed", str(seed)], 2 if q else 8)
         J += sharded("c10-rand", e, ["--gen", "randbytes", "--count", "20000" if q else "400000", "--seed", str(seed)], 4 if q else 32)
         return J
 
